@@ -295,12 +295,22 @@ func (p *prop) Generate(rng *core.Rand, tier string, emit func(string)) {
 		}
 		emit("inc" + strings.TrimPrefix(k.line(), "req"))
 	}
+	// handle_errors routes and handle_response routes: more handlers on the same request (paths.go)
+	for c := 0; c < n/10; c++ {
+		emit(genErq(rng))
+	}
+	for _, l := range []string{"erq 1 - nil nil 0 . 000 - 0 - . . 0 0 0 0 .", "erq 3 - nil nil 0 . 000 - 0 - . . 0 0 0 0 .",
+		"erq 0 - nil nil 0 . 000 - 0 - . . 0 0 0 0 .", "erq 4 - nil nil 0 . 000 - 0 - . . 0 0 0 0 .", "erq 1 zz nil nil 0 . 000 - 0 - . . 0 0 0 0 .",
+		"erq 1 - nil nil 0 . 000 - 0 - . . 1 0 0 0 .", "erq 2 - nil nil 0 . 000 - 0 - . . 0 1 0 0 .", "erq 2 - nil nil 0 . 000 - 0 - . . 0 0 1 0 .",
+		"erq 2 - nil nil 0 . 000 - 0 - . . 0 0 0 2 .", "erq 1 -", "erq 2 - nil nil 0 . 000 - 0 - . . 0 0 0 0", "erq 1 - nil nil 0 nonsense 000 - 0 - . . 0 0 0 0 00"} {
+		emit(l)
+	}
 	// Caddyfile glue: the adapter's reading of the options that configure all of the above
 	ncf := n / 10
 	for c := 0; c < ncf; c++ {
 		emit(genCF(rng))
 	}
-	for _, l := range []string{"cf . 0 . . g", "cf _ 0 _ _ t", "cf . 3 . . g", "cf . 0 . .", "cf zz 0 . . g", "cf 2b 0 . . t", "cf . 0 . . x"} {
+	for _, l := range []string{"cf . 0 . . g", "cf _ 0 _ _ t", "cf . 3 . . g", "cf . 0 . .", "cf zz 0 . . g", "cf 2b 0 . . t", "cf . 0 . . x", "cf . 0 . . g a", "cf . 0 . . t p", "cf . 0 . . g r", "cf . 0 . . g x", "cf . 0 . . g a a"} {
 		emit(l)
 	}
 	// PROXY protocol listener wrapper: who may say what the remote address is
